@@ -29,8 +29,6 @@ def run(ctx):
 
 
 def replay(path):
-    import json
+    from .. import core as _core
 
-    rec = json.load(open(path))
-    print("re-run ./check ; recorded input:", json.dumps(rec.get("input"))[:400])
-    return 2
+    return _core.generic_replay(PROP if "PROP" in globals() else "C10", path, run, LEVEL)
